@@ -29,7 +29,7 @@ from harness import framework, tlc, c03
 
 def run_models(ctx, cfgs, workers):
     def one(cfg):
-        return cfg, tlc.run("Ispec", cfg, workers=workers, tag="c03" + cfg[:-4], timeout=7200)
+        return cfg, tlc.run("Ispec", cfg, workers=workers, tag="c03" + cfg[:-4], timeout=7200, xmx="4g", env=c03.jvm_env(workers))
     with mp.pool.ThreadPool(len(cfgs)) as tp:
         for cfg, res in tp.map(one, cfgs):
             ctx.add_tlc(res, "M:" + cfg)
@@ -40,7 +40,7 @@ def gen_and_replay(ctx, cfg, kind, simulate=None, depth=None):
     wd = tlc.workdir("c03_" + kind)
     spool = os.path.join(wd, "beh.spool")
     res = tlc.run("Ispec", cfg, simulate=simulate, depth=depth, seed=ctx.seed if simulate else None,
-                  spool=spool, tag="c03" + kind, timeout=7200, env={"VERIF_SEED": str(ctx.seed)})
+                  spool=spool, tag="c03" + kind, timeout=7200, env=c03.jvm_env(8, {"VERIF_SEED": str(ctx.seed)}), xmx="4g")
     ctx.add_tlc(res, "G:" + cfg)
     chunks = tlc.spool_chunks(spool, 64)
     with mp.Pool(min(tlc.NCPU, max(1, len(chunks)))) as pool:
@@ -70,7 +70,7 @@ def gen_and_replay(ctx, cfg, kind, simulate=None, depth=None):
 
 def validate_shard(args):
     path, tag = args
-    return tlc.run("IspecTrace", "IspecTrace.cfg", workers=1, env={"TRACE_FILE": path}, tag=tag,
+    return tlc.run("IspecTrace", "IspecTrace.cfg", workers=1, env=c03.jvm_env(1, {"TRACE_FILE": path}), tag=tag,
                    timeout=7200, xmx="2g")
 
 
@@ -215,7 +215,7 @@ def run(ctx):
             run_models(ctx, ["IspecMC_quick.cfg", "IspecMC_dec_quick.cfg", "IspecMC_lex_quick.cfg"], workers=5)
         else:
             run_models(ctx, ["IspecMC_thorough.cfg", "IspecMC_dec_thorough.cfg", "IspecMC_lex_thorough.cfg"], workers=5)
-        res = tlc.run("Ispec", "IspecMC_dev.cfg", expect_violation=True, tag="c03dev")
+        res = tlc.run("Ispec", "IspecMC_dev.cfg", expect_violation=True, tag="c03dev", workers=4, xmx="2g", env=c03.jvm_env(2))
         if not res.violation or "DocImpl" not in res.violation:
             raise tlc.MachineryError("self-test: fault EqNoRewindDown did not violate DocImpl (invariant vacuous?)")
         ctx.note("selftest_fault_detected_by_model", res.violation)
